@@ -52,6 +52,14 @@ theorem C08_src_halving (f : List Int) (t : Int) (hf : f ≠ []) (hnext : 0 < f.
     AC.Gen.Program.heuristicHalvingSuggest f t = some ((suggestHalving f t).getD []) :=
   AC.HeurTie.halving_tie f t hf hnext ht
 
+/-- the translated strategies `binary`, `co_binary`, `dichotomic` of contfrac.go propose exactly the
+    model's k (every non-negative n) -/
+theorem C08_src_strategies (n : Int) (hn : 0 ≤ n) :
+    AC.Gen.Program.contfracBinaryStrategyK n = some (Strategy.K .binary n) ∧
+    AC.Gen.Program.contfracCoBinaryStrategyK n = some (Strategy.K .coBinary n) ∧
+    AC.Gen.Program.contfracDichotomicStrategyK n = some (Strategy.K .dichotomic n) :=
+  ⟨AC.HeurTie.binaryK_tie n, AC.HeurTie.coBinaryK_tie n hn, AC.HeurTie.dichotomicK_tie n hn⟩
+
 /-- the translated `DeltaLargest.Suggest` panics exactly when the target does not exceed the last
     element and otherwise suggests the difference -/
 theorem C08_src_deltaLargest (f : List Int) (t l : Int) (hl : f.getLast? = some l) :
